@@ -456,7 +456,7 @@ func (v *Verifier) assumeMapValuesAllocated(s *State, m *Value) {
 		if !isRef {
 			continue
 		}
-		h := s.heapArr(mapBase(m.T)+"#val"+sp.Suffix, ArrSort(SInt, nestSort(ks, sp.Sort)))
+		h := s.heapArr(mapValHeap(m.T, sp, ks), ArrSort(SInt, nestSort(ks, sp.Sort)))
 		sel := selectN(Select(h, m.term()), keys)
 		s.assume(Forall(keys, Le(sel, s.wm), []*Term{sel}))
 	}
